@@ -711,16 +711,15 @@ def setup():
     rc_all = 0
     with Lock("coq"):
         coq_prepare()
-        rc, log, dt = coq_make(None, timeout=6000)
-        print(log[-3000:])
+        rc, out, err, dt = sh(["make", "-k", "-j16"], cwd=COQ, timeout=6000)
+        print((out + err)[-3000:])
         if rc != 0:
-            print("setup: coq build failed (continuing: per-property checks will report)")
-            rc_all = 1
+            print("setup: WARNING some Coq files did not build (each property's check rebuilds and reports its own closure)")
         for g in all_groups():
             ok, msg = build_driver(g)
             print(f"driver {g}:", msg[-1500:])
             if not ok:
-                rc_all = 1
+                print(f"setup: WARNING driver {g} not built")
     for crate in sorted(os.listdir(os.path.join(ROOT, "harness"))):
         if not os.path.exists(os.path.join(ROOT, "harness", crate, "src", "main.rs")):
             continue
@@ -729,7 +728,7 @@ def setup():
                 ok, log, _ = build_harness(crate, rel, timeout=3000)
             print(f"harness {crate} release={rel}:", "ok" if ok else log)
             if not ok:
-                rc_all = 1
+                print(f"setup: WARNING harness {crate} not built")
     print(f"setup done in {time.time() - t0:.0f}s rc={rc_all}")
     return rc_all
 
